@@ -52,7 +52,7 @@ CHECKS = {
     },
     "C02": {
         "bounds": {"quick": "byte limit: every input length 0..32 MiB (symbolic 32-bit length, content never read) for Tokenize and TokenizeContext; token limit: source instantiated at MaxTokens=2, all inputs <= 5 bytes over {a space ,}; depth limit: every current depth 0..200 for parseExpression and parseCommonTableExpr; recursion accounting: every *Parser method re-entered while active must see a larger depth, for all <= 3-token continuations (150-row statement/expression lexeme table) of 5 contexts (statement start, SELECT, SELECT * FROM, SELECT * FROM t JOIN, SELECT a FROM t WHERE) and every start depth 0..89; every recursion cycle enforces the limit: from start depths 97..102 a *Parser method is re-entered while active only if the active activation was entered below 100, same contexts and continuations",
-                   "thorough": "same, token limit <= 7 bytes, recursion accounting <= 4 tokens (the limit-on-every-cycle runs stay at <= 3 tokens: the 4-token runs were not completed on the unchanged tree and are not registered)"},
+                   "thorough": "same, token limit <= 7 bytes, recursion accounting <= 4 tokens (the limit-on-every-cycle runs: <= 4 tokens at statement start, after SELECT * FROM and after JOIN, <= 3 tokens after SELECT and after WHERE, whose 4-token runs did not finish inside 7 minutes and are not registered)"},
         "outside": "cycles whose shortest re-entry needs more tokens than the bound from these contexts; goroutine stack bytes (activations are counted, not bytes); the real constant MaxTokens=1,000,000 is covered through the instantiation argument (the constant occurs only in the comparison with len(tokens) and in the error builder)",
         "assumptions": ["documented limits: 10 MiB input, 1,000,000 tokens, nesting depth 100", "p.depth is the accounting measure"],
         "runs": [
@@ -67,7 +67,7 @@ CHECKS = {
         ] + parruns(["VxC02_Reentry_Start3", "VxC02_Reentry_Select3", "VxC02_Reentry_From3", "VxC02_Reentry_Join3", "VxC02_Reentry_Where3"],
                     ["VxC02_Reentry_Start4", "VxC02_Reentry_Select4", "VxC02_Reentry_From4", "VxC02_Reentry_Join4", "VxC02_Reentry_Where4"], ["C02.reentry_accounted"], extra={"engine_only_asserts": ["C02.reentry_accounted"]})
           + parruns(["VxC02_Limited_Start3", "VxC02_Limited_Select3", "VxC02_Limited_From3", "VxC02_Limited_Join3", "VxC02_Limited_Where3"],
-                    ["VxC02_Limited_Start3", "VxC02_Limited_Select3", "VxC02_Limited_From3", "VxC02_Limited_Join3", "VxC02_Limited_Where3"], ["C02.reentry_limited"], extra={"engine_only_asserts": ["C02.reentry_accounted", "C02.reentry_limited"]}),
+                    ["VxC02_Limited_Start4", "VxC02_Limited_Select3", "VxC02_Limited_From4", "VxC02_Limited_Join4", "VxC02_Limited_Where3"], ["C02.reentry_limited"], extra={"engine_only_asserts": ["C02.reentry_accounted", "C02.reentry_limited"]}),
     },
     "C03": {
         "bounds": {"quick": "WHERE-expressions of <= 4 symbolic tokens over a 30-row lexeme table (identifiers, literals, every operator of the documented ladder, parentheses, NOT/IS/NULL/IN/BETWEEN/LIKE/AND/OR) and <= 5 tokens over a 16-row operator table; SELECT with every combination of DISTINCT/WHERE/GROUP BY/HAVING/ORDER BY [DESC]/LIMIT/OFFSET with symbolic names and numbers; 12 longer expression shapes (NOT ( a ) ? b, a ? ( b ? c ) ? d, unary minus, double NOT, ...) with every operator slot symbolic over 10 operators; HAVING with and without GROUP BY; chains of <= 2 set operators (UNION/EXCEPT/INTERSECT, ALL symbolic) over 3 selects; join chains of <= 2 joins, each of 9 spellings (JOIN, INNER, LEFT [OUTER], RIGHT [OUTER], FULL [OUTER], CROSS) with symbolic table, optional alias, ON or USING: kind, table, alias and condition per join as written; INSERT with 0-2 listed columns and 1-3 rows of symbolic numbers: every row keeps its own values; UPDATE with 1-3 assignments and DELETE, WHERE symbolic",
@@ -259,7 +259,7 @@ CHECKS = {
         "bounds": {"quick": "every failing path of the C01 runs (same bounds, including every truncation of the 47-statement corpus): tokenizer errors and low-level parser errors; reproducibility: the same <= 2-token input gives the same code, message and location before and after an unrelated position-tracking parse of another input; a reused tokenizer instance reports the same code, message and location as a fresh one (inputs <= 3 bytes over the failing-literal alphabet after 5 earlier texts)", "thorough": "same as C01 thorough"},
         "outside": "wording of messages and hints; errors of the gosqlx wrappers (checked by C07 harness); reproducibility across Go map iteration order and across parser instance histories (the latter is C08's independence claim)",
         "assumptions": ["documented code families: E1xxx tokenizer, E2xxx parser"],
-        "runs": tokruns(["C13.tok_structured", "C13.tok_family"], ["VxC04_All2", "VxC04_Lex3"], ["VxC04_All3", "VxC04_Lex4"]) + tokruns(["C13.tok_structured", "C13.tok_error_line"], ["VxC13_WordsErr2"], ["VxC13_WordsErr2"]) + parruns(["VxSoup_Start2", "VxSoup_Select2", "VxSoup_From2", "VxSoup_Where2", "VxSoup_Cut0"], ["VxSoup_Cut1", "VxSoup_Start3", "VxSoup_Select3", "VxSoup_From3", "VxSoup_Where3"], ["C13.structured", "C13.family"]) + [
+        "runs": tokruns(["C13.tok_structured", "C13.tok_family"], ["VxC04_All2", "VxC04_Lex3"], ["VxC04_All3", "VxC04_Lex4"]) + tokruns(["C13.tok_structured", "C13.tok_error_line"], ["VxC13_WordsErr2"], ["VxC13_WordsErr3"]) + parruns(["VxSoup_Start2", "VxSoup_Select2", "VxSoup_From2", "VxSoup_Where2", "VxSoup_Cut0"], ["VxSoup_Cut1", "VxSoup_Start3", "VxSoup_Select3", "VxSoup_From3", "VxSoup_Where3"], ["C13.structured", "C13.family"]) + [
             {"pkg": TOK, "harness": "VxC08_TokReuse3", "tiers": ["quick"], "expect_asserts": ["C13.tok_reproducible", "C13.tok_same_location"]},
             {"pkg": TOK, "harness": "VxC08_TokReuse4", "tiers": ["thorough"], "expect_asserts": ["C13.tok_reproducible", "C13.tok_same_location"]},
             {"pkg": PAR, "harness": "VxC13_Repeat", "args": {"max-steps": 400000}, "expect_asserts": ["C13.repeat_same_error"], "budget_judged_by": "C01"}],
